@@ -10,7 +10,7 @@ from ..core import Disc, Subcheck, exc_detail, exc_key
 
 PROPERTY_ID = 'C09'
 LEVEL = 'fault_enumeration'
-RULE = ('connect: client.connect(MemoryReactorClock, address) for address lists of 1-4 unix:/tcp:/nonce-tcp: entries with '
+RULE = ('loss histories also leave library-issued calls in flight (lib_call: delMatch, requestBusName, releaseBusName, getNameOwner, addMatch, getRemoteObject). connect: client.connect(MemoryReactorClock, address) for address lists of 1-4 unix:/tcp:/nonce-tcp: entries with '
         'every subset marked unreachable (the harness answers clientConnectionFailed or builds the protocol); on the '
         'first reachable entry a conforming server script (OK, [AGREE_UNIX_FD], Hello reply) is cut at EVERY byte index '
         '(crash point = transport closed after that many server bytes), plus the scripts "REJECTED until the mechanisms '
